@@ -182,13 +182,51 @@ def write_sub(trace_file, traces, sel, dest):
             g.writelines(lines[s:e])
 
 
+def gen_scenarios(job, ev, ctx, dest):
+    """Direction 1 (specification -> implementation): TLC explores a scenario-generating configuration of the
+    module (internal actions eager, environment actions logged in `envlog`, which is outside the VIEW) and prints
+    the environment step sequence of every environment transition it generates from a distinct quiescent state.
+    The maximal sequences are the scenarios the driver then executes on the real code."""
+    scn = set()
+    for module, cfgs in job['scn']:
+        for cfg in cfgs[ctx['tier']]:
+            r = tlc(module, cfg, workers=8, timeout=job.get('scn_timeout', 900))
+            if not r['completed']:
+                raise Infra('scenario generation %s/%s did not complete:\n%s' % (module, cfg, r['out'][-2000:]))
+            flat = re.sub(r'\s+', ' ', r['out'])
+            for m in re.finditer(r'<< ?"SCN", "([^"]*)", <<([^<>]*)>> ?>>', flat):
+                scn.add((m.group(1), tuple(re.findall(r'"([^"]*)"', m.group(2)))))
+            ev['tlc_runs'].append({'module': module, 'cfg': cfg, 'generated': r.get('generated'), 'distinct': r.get('distinct'),
+                                   'depth': r.get('depth'), 'wall_s': r['wall_s'], 'violated': [], 'purpose': 'scenario generation'})
+            ev['states'] += r.get('distinct', 0)
+            ev['transitions'] += r.get('generated', 0)
+    # keep the maximal sequences only (a scenario covers the transitions of all its prefixes)
+    pref = set()
+    for o, st in scn:
+        for k in range(1, len(st)):
+            pref.add((o, st[:k]))
+    keep = sorted(x for x in scn if x not in pref)
+    if not keep:
+        raise Infra('scenario generation produced nothing')
+    with open(dest, 'w') as f:
+        for o, st in keep:
+            f.write(json.dumps({'opt': o, 'steps': list(st)}) + '\n')
+    ev.setdefault('scenario_generation', []).append({'env_transitions_printed': len(scn), 'maximal_scenarios': len(keep)})
+    log('generated %d scenarios (%d environment transitions) from %s' % (len(keep), len(scn), ', '.join(m for m, _ in job['scn'])))
+    return dest
+
+
 def conformance_job(job, ev, ctx):
     """Drive the real code, validate the traces."""
     name = job['name']
     outdir = '%s/out/%s-%s' % (BUILD, ctx['pid'], name)
     shutil.rmtree(outdir, ignore_errors=True)
     n = job.get('n', {}).get(ctx['tier'])
-    d = drive(job['test'], outdir, ctx['tier'], ctx['seed'], n=n, env=job.get('env'), timeout=job.get('timeout', 1500))
+    jenv = dict(job.get('env') or {})
+    if job.get('scn'):
+        os.makedirs(outdir, exist_ok=True)
+        jenv['VERIF_SCN_FILE'] = gen_scenarios(job, ev, ctx, outdir + '/scenarios.jsonl')
+    d = drive(job['test'], outdir, ctx['tier'], ctx['seed'], n=n, env=jenv, timeout=job.get('timeout', 1500))
     viol = []
     fname = job.get('file', name)      # the driver's own output name when the job name differs from it
     statusf = '%s/%s.status.json' % (outdir, fname)
